@@ -2,3 +2,4 @@ import Glas.Props.C03
 #print axioms Glas.Props.C03.glas_lookahead
 #print axioms Glas.Props.C03.item_suffix_local
 #print axioms Glas.Props.C03.item_prefix_det
+#print axioms Glas.Props.C03.C03_conditional
